@@ -226,6 +226,8 @@ package types
 //@   noeffect
 //@ func EventEmitter.On(evt, listeners)
 //@   noeffect
+//@ func EventEmitter.ListenerCount(evt)
+//@   pure
 //@ func EventEmitter.Once(evt, listeners)
 //@   noeffect
 //@ func EventEmitter.AddListener(evt, listeners)
